@@ -51,6 +51,15 @@ CLAIMS.update({
             "faults are injected by harness-side logging containers; 'definitions unchanged' accepts either the pre-update or the established definition (DESIGN section 6)"),
 })
 
+CLAIMS.update({
+    "C08": (E, "exploration", EN,
+            "ALL index columns over a 3-name alphabet of length 0..5 (plus fixed larger tables) x every selector of the documented grammar (positions, position lists, masks, slices, regex with ::count and <<k / >>k, name spans, value ranges with both/one/no bound, name lists) through rows/indices/mask against a naive reference over the raw columns; ALL ordered pairs of a 40-selector core for rows[s1,s2] == rows[s1].rows[s2]; repeated per hash seed with result digests compared",
+            "names distinct under case folding, no regex metacharacters; explicit lists keep the given order (pinned by the suite); shifts judged only when landing inside"),
+    "C14": (H, "model_checking", MC,
+            "every history of derivations (rows/cols incl. expressions/+/*/concatenate/_copy/_t/reverse/head/tail) and column assignments up to the depth bound from base tables of 0..3 rows with float/int/string/object columns and a scalar entry; after every operation: rectangularity invariant, source snapshot unchanged around the derivation, contents equal a plain-list model, scalars carried over, column expressions equal numpy element-wise",
+            "write isolation of later assignments through shared arrays is not claimed by the property and not demanded"),
+})
+
 NOT_YET = "check under construction in this session; not yet claimed"
 
 
